@@ -21,7 +21,8 @@ def select_subjects(corp, tier):
     """a sample rich in what could depend on hash order: many variants, wide values, renames"""
     picks = []
     per_family = {"S": 20, "V": 40, "R": 60, "G": 60 if tier == "thorough" else 24, "N": 18, "B": 6, "A": 40 if tier == "thorough" else 12,
-                  "X": 60 if tier == "thorough" else 16, "M": 20 if tier == "thorough" else 8}
+                  "X": 60 if tier == "thorough" else 16, "M": 20 if tier == "thorough" else 8,
+                  "P": 179 if tier == "thorough" else 70, "I": 40, "Q": 60 if tier == "thorough" else 24}
     seen = {}
     for s in corp.subjects:
         if len(s.variants) > 700:
@@ -44,9 +45,24 @@ def write_source(path, subjects):
                 f.write("\n}\n")
 
 
+# per-process state other than the hash seeds: what the compiler process finds in its environment.  Cargo sets variables of this
+# kind for build scripts and wrappers; a derive that reads one of them expands the same declaration differently there.
+PROCESS_ENVS = [
+    {},
+    {"CARGO_CFG_TARGET_POINTER_WIDTH": "64", "CARGO_CFG_TARGET_ENDIAN": "little", "TARGET": "x86_64-unknown-linux-gnu", "PROFILE": "debug"},
+    {"CARGO_CFG_TARGET_POINTER_WIDTH": "16", "CARGO_CFG_TARGET_ENDIAN": "big", "CARGO_CFG_TARGET_ARCH": "avr", "TARGET": "avr-none",
+     "HOST": "other", "PROFILE": "release", "OPT_LEVEL": "3", "DEBUG": "false", "CARGO_PKG_NAME": "other", "CARGO_PKG_VERSION": "9.9.9",
+     "CARGO_CRATE_NAME": "other", "CARGO_MANIFEST_DIR": "/nonexistent", "OUT_DIR": "/nonexistent", "LANG": "de_DE.UTF-8", "LC_ALL": "C",
+     "TZ": "Asia/Tokyo", "RUST_BACKTRACE": "1", "CARGO_CFG_DEBUG_ASSERTIONS": "", "CARGO_FEATURE_STD": "1", "NUM_JOBS": "1"},
+    {"CARGO_CFG_TARGET_POINTER_WIDTH": "32", "CARGO_CFG_TARGET_ARCH": "wasm32", "TARGET": "wasm32-unknown-unknown", "CARGO_ENCODED_RUSTFLAGS": "",
+     "CARGO_PRIMARY_PACKAGE": "1", "USER": "nobody", "TMPDIR": "/var/tmp", "SOURCE_DATE_EPOCH": "1"},
+]
+
+
 def expand_once(args):
     src, so, idx = args
     env = dict(os.environ, RUSTC_BOOTSTRAP="1")
+    env.update(PROCESS_ENVS[idx % len(PROCESS_ENVS)])
     p = subprocess.run(["rustc", "--edition", "2021", "--crate-type", "lib", "--crate-name", "expn", "-Zunpretty=expanded",
                         "--extern", f"enum_tools={so}", "-Awarnings", src], capture_output=True, text=True, env=env)
     return p.returncode, p.stdout, p.stderr[-3000:]
@@ -102,6 +118,9 @@ def run(corp, tier, work, k_runs, exclude=()):
         raise RuntimeError("expansion failed repeatedly: " + err0)
     with ThreadPoolExecutor(max_workers=16) as ex:
         res = [(rc0, text0, err0)] + list(ex.map(expand_once, [(src, so, i) for i in range(1, k_runs)]))
+    for i, (rc, _, err) in enumerate(res):
+        if rc != 0:
+            raise RuntimeError(f"expansion run {i} failed although run 0 succeeded (the machinery's environment, not the derive): " + err[-800:])
     hashes = [hashlib.sha256(t.encode()).hexdigest()[:16] for _, t, _ in res]
     diffs = []
     mods0 = split_modules(text0)
@@ -188,7 +207,7 @@ def extract(mod_text, subj):
         out["tables"]["name"] = [rust_unescape(x) for x in re.findall(STR_RE, m.group(2))]
     m = re.search(r"const __ENUM: \[" + E + r"; (\d+)(?:usize)?\] = \[(.*?)\];", flat)
     if m:
-        out["tables"]["enum"] = re.findall(E + r"::(\w+)", m.group(2))
+        out["tables"]["enum"] = re.findall(E + r"::((?:r#)?\w+)", m.group(2))
     m = re.search(r"const __RANGES: \[\(::core::ops::RangeInclusive<\w+>, (\w+|\(\))\); (\d+)(?:usize)?\] = \[(.*?)\];", flat)
     if m:
         ents = []
@@ -217,8 +236,8 @@ def extract(mod_text, subj):
     for im in re.finditer(r"(?<![\w:])((?:pub(?:\([^)]*\))?\s+)?)(const fn|fn|const|struct)\s+(\w+)", nodoc):
         vis, kind, name = im.group(1).strip(), im.group(2), im.group(3)
         out["items"].setdefault(name, []).append({"vis": vis, "kind": kind})
-    mm = re.search(r"const (\w+): " + E + r" = " + E + r"::(\w+); (?:#\[doc[^\]]*\] )*(?:///[^\n]*)?", flat)
-    consts = re.findall(r"((?:pub(?:\([^)]*\))? )?)const (\w+): " + E + r" = " + E + r"::(\w+);", flat)
+    mm = re.search(r"const (\w+): " + E + r" = " + E + r"::((?:r#)?\w+); (?:#\[doc[^\]]*\] )*(?:///[^\n]*)?", flat)
+    consts = re.findall(r"((?:pub(?:\([^)]*\))? )?)const (\w+): " + E + r" = " + E + r"::((?:r#)?\w+);", flat)
     out["enum_consts"] = [{"vis": v.strip(), "name": n, "variant": var} for v, n, var in consts]
     # iterator mode from the struct's field type
     im = re.search(r"struct (\w+) \{ inner: ::core::iter::Map<", flat)
